@@ -393,9 +393,30 @@ func suiteDocument(r *Rng, n int, thorough bool, o *Out) {
 			frags = append(frags, resID)
 			o.stat("url.with-id")
 		}
+		// a collection URL may carry sorting rules, page parameters and a filter label whose
+		// text needs escaping in the self link
+		var rules []string
+		var page map[string]any
+		label := ""
+		if resID == "" && r.bool() {
+			for i := r.IntN(3); i >= 0; i-- {
+				rules = append(rules, []string{"id", "-created at", "é", "a&b", "-n=m", "50%", "x+y"}[r.IntN(7)])
+			}
+			if r.bool() {
+				page = map[string]any{"size": 10, "a b": "c&d"}
+			}
+			if r.bool() {
+				label = []string{"top ten", "a&b", "é\"q\""}[r.IntN(3)]
+			}
+			o.stat("url.with-params")
+		}
 		mkURL := func() *jsonapi.URL {
+			pg := map[string]any{}
+			for k, v := range page {
+				pg[k] = v
+			}
 			return &jsonapi.URL{Fragments: append([]string{}, frags...), ResType: ts[0].typ.Name, ResID: resID, IsCol: resID == "",
-				Params: &jsonapi.Params{Fields: fields}}
+				Params: &jsonapi.Params{Fields: fields, SortingRules: append([]string{}, rules...), Page: pg, FilterLabel: label}}
 		}
 		url := mkURL()
 		urlSnap := func(u *jsonapi.URL) string {
@@ -405,7 +426,7 @@ func suiteDocument(r *Rng, n int, thorough bool, o *Out) {
 				sort.Strings(c)
 				fs[t] = c
 			}
-			return fmt.Sprintf("%q %q %q %v %s", u.Fragments, u.ResType, u.ResID, u.IsCol, sxFieldsMap(fs))
+			return fmt.Sprintf("%q %q %q %v %s %q %v %q", u.Fragments, u.ResType, u.ResID, u.IsCol, sxFieldsMap(fs), u.Params.SortingRules, u.Params.Page, u.Params.FilterLabel)
 		}
 		urlBefore := urlSnap(url)
 		selfHref := ""
